@@ -3,6 +3,7 @@ package query
 import (
 	"context"
 	"fmt"
+	"sort"
 	"strings"
 	"sync"
 	"syscall"
@@ -31,7 +32,7 @@ func c31(r *sim.R) *sim.Violation {
 	sem := make(chan struct{}, K)
 	restore := engine.VerifSetNumProcessingUnits(1 + t.Draw(2))
 	defer restore()
-	q := &model.Query{Attrs: []string{"sip", "dport"}, Ifaces: m.IfaceNames(), First: 1, Last: 4102444800}
+	q := &model.Query{Attrs: []string{"sip", "dport"}, Ifaces: m.IfaceNames()[:1], First: 1, Last: 4102444800} // one interface: see C11
 	keepAlive := []time.Duration{0, 200 * time.Millisecond, 3 * time.Second}[t.Draw(3)]
 
 	type call struct {
@@ -48,6 +49,7 @@ func c31(r *sim.R) *sim.Violation {
 	var mu sync.Mutex // harness bookkeeping is touched by client goroutines that may run concurrently
 	executing := map[int]bool{}
 	inCall := map[int]bool{}
+	actorNames := map[int64]string{}
 	maxExec := 0
 	wd.fs.Yield = func(op *simfs.Op) {
 		name := op.Proc.Name
@@ -59,20 +61,28 @@ func c31(r *sim.R) *sim.Violation {
 		mu.Lock()
 		if inCall[id] { // operations of goroutines that outlive a returned (cancelled) call do not count
 			executing[id] = true
-			if n := len(executing); n > maxExec {
-				maxExec = n
-			}
 		}
 		mu.Unlock()
-		sc.Yield(fmt.Sprintf("%s.%d", name, sim.GoID()%1000), string(op.Kind)+" "+op.Path)
+		gid := sim.GoID()
+		mu.Lock()
+		an, ok := actorNames[gid]
+		if !ok {
+			an = name + ":" + string(op.Kind) + " " + op.Path
+			actorNames[gid] = an
+		}
+		mu.Unlock()
+		sc.Yield(an, string(op.Kind)+" "+op.Path)
 	}
 	defer func() { wd.fs.Yield = nil }()
 	var calls []*call
 	pending := map[*call]bool{}
-	sc.OnStep = func() {
+	sc.OnQuiescent = func() {
 		held := len(sem)
 		mu.Lock()
 		defer mu.Unlock()
+		if n := len(executing); n > maxExec {
+			maxExec = n
+		}
 		for c := range pending {
 			if held < c.maxHeldMin {
 				c.maxHeldMin = held
@@ -173,6 +183,14 @@ func c31(r *sim.R) *sim.Violation {
 	}
 	_ = sig
 	n429 := 0
+	// canonical order: calls that return within the same quiescent interval are appended in an
+	// order the Go scheduler decides
+	sort.Slice(calls, func(i, j int) bool {
+		if calls[i].client != calls[j].client {
+			return calls[i].client < calls[j].client
+		}
+		return calls[i].start < calls[j].start
+	})
 	for _, c := range calls {
 		r.Event("  client %d %s steps [%d,%d] -> %s", c.client, c.kind, c.start, c.end, outcome(c.res, c.err))
 		if c.res != nil && c.res.Status.Code == types.StatusTooManyRequests {
